@@ -198,3 +198,110 @@ def ob_c_shared(ob):
 
     ob.note("this obligation is the one registered as C11.d; it is also decided here because a resumed surface-hopping run equals the uninterrupted one only if the nonadiabatic rows due after the restart are written at their absolute steps")
     _m.ob_d(ob)
+
+
+_CKPT_ATTRS = {"velocities": "velocities", "Etot": "Etot", "forces": "force", "molecular_orbitals": "molecular_orbitals", "cis_energies": "cis_energies", "dm": "dm", "cis_amplitudes": "cis_amplitudes", "old_mos": "old_mos", "transition_density_matrices": "transition_density_matrices"}
+
+
+def replay_checkpoint_keys(engine):
+    """float64, real save path with real torch.save/torch.load in a temporary directory: which of the molecule entries that
+    the restore routine reads are actually present in the file"""
+    import os, shutil, tempfile, types, io, contextlib, datetime
+    import seqm.MolecularDynamics as MD
+    import seqm.NonadiabaticDynamics as ND
+    from . import mdsim as M
+
+    M.uninstall()
+    d = tempfile.mkdtemp(prefix="verif_c10_")
+    try:
+        t = lambda *s: torch.rand(*s, dtype=torch.float64)
+        mol = types.SimpleNamespace(species=torch.tensor([[1, 1]]), coordinates=t(1, 2, 3), velocities=t(1, 2, 3), Etot=t(1), dm=t(1, 8, 8), cis_amplitudes=t(1, 2, 4), transition_density_matrices=t(1, 2, 8, 8), const=None, old_mos=t(1, 8, 8), force=t(1, 2, 3), molecular_orbitals=t(1, 8, 8), cis_energies=t(1, 2), dP2dt2=None)
+        cls = ND.SurfaceHoppingDynamics if engine == "surface_hopping" else MD.Molecular_Dynamics_Basic
+        md = cls.__new__(cls)
+        torch.nn.Module.__init__(md)
+        md.timestep, md.Temp, md.seqm_parameters, md.start_time = 0.5, 300.0, {}, datetime.datetime.now()
+        md.output_config = MD.OutputConfig.from_dict({"molid": [0], "prefix": "x", "h5": {}})
+        if engine == "surface_hopping":
+            md._amp_phase, md._active_states, md._current_potential, md._cache_old, md._nstates, md.damp = t(1, 2, 3), torch.zeros(1, dtype=torch.long), t(1), None, 2, None
+        path = os.path.join(d, "x.restart.pt")
+        with contextlib.redirect_stdout(io.StringIO()):
+            md.save_checkpoint(mol, 10, True, None, step_done=3, path=path)
+        ck = torch.load(path, weights_only=False)
+        missing = [k for k, a in _CKPT_ATTRS.items() if not torch.is_tensor(ck["molecules"].get(k))]
+        print("replay checkpoint of engine %s: molecule entries read on restore but absent from the file: %s" % (engine, missing))
+        return bool(missing)
+    finally:
+        shutil.rmtree(d, ignore_errors=True)
+
+
+class _RecDict(dict):
+    def __init__(self, *a):
+        dict.__init__(self, *a)
+        self.read = []
+
+    def __contains__(self, k):
+        self.read.append(k)
+        return dict.__contains__(self, k)
+
+    def get(self, k, default=None):
+        self.read.append(k)
+        return dict.get(self, k, default)
+
+    def __getitem__(self, k):
+        self.read.append(k)
+        return dict.__getitem__(self, k)
+
+
+@obligation(PID, "d", title="the checkpoint is sufficient for the restore path: every molecule entry that _restore_molecule_from_ckpt reads is written by the engine's own save_checkpoint, and after save + restore each restored attribute (velocities, forces, densities, amplitudes, orbitals used for phase/order tracking, state energies) equals the value the running molecule had — for arbitrary values, ground-state MD and surface-hopping engines")
+def ob_d(ob):
+    import types, io, contextlib, datetime
+    import seqm.MolecularDynamics as MD
+    import seqm.NonadiabaticDynamics as ND
+    from .common import S, smt, z3, np, SymTensor, symbolic_factories, expect_refuted
+
+    ob.encodes(MD.Molecular_Dynamics_Basic._build_checkpoint_base, MD.Molecular_Dynamics_Basic.save_checkpoint, ND.NonadiabaticDynamicsBase.save_checkpoint, MD.Molecular_Dynamics_Basic._restore_molecule_from_ckpt)
+    ob.bound("every tensor attribute of the molecule is filled with its own symbol (symbolic-tag execution); engines: Molecular_Dynamics_Basic and SurfaceHoppingDynamics; density reuse on")
+    ob.assume("the file write is a recorder (torn writes / atomic replace are C10.a); serialisation preserves values")
+    tag = lambda n, *s: SymTensor(np.full(s, z3.Real("tag_" + n), dtype=object))
+    for engine, cls in (("basic", MD.Molecular_Dynamics_Basic), ("surface_hopping", ND.SurfaceHoppingDynamics)):
+        src = types.SimpleNamespace(species=torch.tensor([[1, 1]]), coordinates=tag("coordinates", 1, 2, 3), velocities=tag("velocities", 1, 2, 3), Etot=tag("Etot", 1), dm=tag("dm", 1, 2, 2), cis_amplitudes=tag("cis_amplitudes", 1, 2, 2), transition_density_matrices=tag("transition_density_matrices", 1, 2, 2), const=None, old_mos=tag("old_mos", 1, 2, 2), force=tag("force", 1, 2, 3), molecular_orbitals=tag("molecular_orbitals", 1, 2, 2), cis_energies=tag("cis_energies", 1, 2), dP2dt2=None)
+        md = cls.__new__(cls)
+        torch.nn.Module.__init__(md)
+        md.timestep, md.Temp, md.seqm_parameters, md.start_time = 0.5, 300.0, {}, datetime.datetime.now()
+        md.output_config = MD.OutputConfig.from_dict({"molid": [0], "prefix": "x", "h5": {}})
+        if engine == "surface_hopping":
+            md._amp_phase, md._active_states, md._current_potential, md._cache_old, md._nstates, md.damp = tag("amp", 1, 2, 3), torch.zeros(1, dtype=torch.long), tag("pot", 1), None, 2, None
+        got = {}
+        md._atomic_save_checkpoint = lambda ckpt, path: got.update(ckpt=ckpt)
+        with contextlib.redirect_stdout(io.StringIO()), symbolic_factories():
+            md.save_checkpoint(src, 10, True, None, step_done=3, path="/mem/x.restart.pt")
+        ob.require("ckpt" in got and isinstance(got["ckpt"].get("molecules"), dict), "save_checkpoint did not hand a checkpoint to the writer")
+        rec = _RecDict(got["ckpt"]["molecules"])
+        dst = types.SimpleNamespace(**{a: None for a in _CKPT_ATTRS.values()})
+        with symbolic_factories():
+            MD.Molecular_Dynamics_Basic._restore_molecule_from_ckpt(rec, dst, True, "cpu")
+        consumed = sorted(set(rec.read))
+        ob.sample({"engine": engine, "entries read on restore": consumed, "entries written": sorted(got["ckpt"]["molecules"].keys())})
+        for k in consumed:
+            attr = _CKPT_ATTRS.get(k)
+            if attr is None:
+                continue
+            lab = "d:%s entry %r" % (engine, k)
+            saved_v, restored = dict.get(rec, k), getattr(dst, attr)
+            ok = isinstance(saved_v, SymTensor) and isinstance(restored, SymTensor)
+            if ok:
+                v, m = smt.prove(restored.a.reshape(-1)[0] == z3.Real("tag_" + attr), [], lab, "lra", 10)
+                ok = v == "unsat"
+            if not ok:
+                fid = "C10-checkpoint-omits-orbitals"
+                if ob.is_known(fid):
+                    if not ob.known_lines:
+                        ob.known_finding(fid, ob.is_known(fid)["what"])
+                    continue
+                if replay_checkpoint_keys(engine):
+                    ob.violation("engine %s: the restore path reads the molecule entry %r but save_checkpoint does not write it (the resumed run starts without the running molecule's %s, e.g. orbital phase/order tracking restarts and excited-state outputs change sign)" % (engine, k, attr), {"module": "harness.C10", "func": "replay_checkpoint_keys", "args": {"engine": engine}})
+                    return
+                raise HarnessError("checkpoint-entry counterexample did not reproduce (%s)" % lab)
+            ob.discharged(lab)
+    x, y = z3.Reals("x y")
+    expect_refuted(ob, x == y, [], "twin: a different attribute's tag is distinguishable", "lra")
